@@ -14,9 +14,9 @@ ck = importlib.util.module_from_spec(_spec)
 _loader.exec_module(ck)
 
 SCENARIOS = {
-    "C17": ["blocking", "timeout", "contended", "in_runtime", "deadletters", "blocking_ask_vs_end", "blocking", "timeout", "contended", "blocking_ask_vs_end", "end_vs_observers", "erased_blocking", "timed_independent", "timed_blocking_vs_end", "kill_busy_from_thread"],
+    "C17": ["blocking", "timeout", "contended", "in_runtime", "deadletters", "blocking_ask_vs_end", "blocking", "timeout", "contended", "blocking_ask_vs_end", "end_vs_observers", "erased_blocking", "timed_independent", "timed_blocking_vs_end", "kill_busy_from_thread", "parked_executor", "parked_executor"],
     "C01": ["async_mt"],
-    "C03": ["ask_vs_end", "ask_vs_end", "async_mt", "end_vs_observers"],
+    "C03": ["ask_vs_end", "ask_vs_end", "async_mt", "end_vs_observers", "parked_executor"],
     "C02": ["async_mt"],
     "C06": ["kill_then_drop", "kill_then_drop", "kill_then_drop", "async_mt", "kill_busy_from_thread"],
     "C11": ["ids", "end_vs_observers"],
@@ -118,6 +118,10 @@ def run_batch(prop, scenarios, n_runs, seed):
         rates = ["0.1", "0.3", "0.5"] if sc in ("ids", "dd_mt") else RATES
         if sc == "blocking_ask_storm":
             rates = ["0.5", "0.9", "0.3", "1.0"]
+        if sc == "parked_executor":
+            # the poll | park window of the executor: long uninterrupted stretches (the waker thread completes its wake-up
+            # while the caller sits in the window) plus no pre-emption at all (the future itself yields in the window)
+            rates = ["0.03", "0", "0.05", "0.01", "0.02", "0.2"]
         if sc == "kill_then_drop":
             # the actor task must be pre-empted in the middle of one poll of its loop
             rates = ["0.05", "0.5", "0.2", "0.01", "0.1", "0.3"]
@@ -155,7 +159,10 @@ def summarize(prop, results):
         if len(samples) < 3 and evs:
             samples.append({"scenario": sc, "workload_seed": job[1], "miri_seed": job[2], "preemption_rate": job[3], "observations": evs})
         try:
-            vs = classify(code, out, HANG_PROP.get(sc, "C17"))
+            vs = classify(code, out, prop if (sc == "parked_executor" and prop in ("C03", "C17")) else HANG_PROP.get(sc, "C17"))
+            if sc == "parked_executor" and prop == "C03":
+                # the executor is the waiting half of blocking_ask(None): a lost wake-up is an ask that never returns
+                vs = [("C03" if sig == "executor-lost-wakeup" else p_, sig, text) for (p_, sig, text) in vs]
         except RuntimeError as e:
             sys.stderr.write(str(e))
             ck.die("Miri engine error")
